@@ -12,7 +12,7 @@ EXH_TOTAL = {"quick": 400000, "thorough": 3000000}  # per TLC run: sum of runs o
 
 def run(chk, mode="three"):
     tier = chk.tier
-    per_prog = 6 if tier == "quick" else 9
+    per_prog = 7 if tier == "quick" else 10
     jobs = progs.jobs(tier, chk.seed, per_prog=per_prog)
     # specification -> implementation: programs enumerated by TLC from the specification's typing relation
     # (spec/ProgGen.tla: every bit-typed program of <= 4 nodes over Add/Subtract/Multiply/Sum/Zeros/Ones), a seeded sample
@@ -24,7 +24,7 @@ def run(chk, mode="three"):
     jid = max(j["id"] for j in jobs)
     for name, pr, _tys in grng.sample(gen, min(len(gen), 120 if tier == "quick" else 800)):
         nin = sum(1 for nd_ in pr["graphs"][0]["nodes"] if nd_["op"] == "Input")
-        for ow, outs, md in grng.sample(progs.configs(nin, "quick", grng, 6), 2 if tier == "quick" else 3):
+        for ow, outs, md in grng.sample(progs.configs(nin, "quick", grng, 7), 2 if tier == "quick" else 3):
             jid += 1
             jobs.append({"id": jid, "name": name, "cls": "bit", "prog": pr, "owners": ow, "outs": outs, "mode": md})
     chk.note("programs_enumerated_from_the_specification", len(gen))
